@@ -211,6 +211,15 @@ def _apportion(ctx: Ctx):
     return r
 
 
+def _scrollbar_parts(ctx: Ctx):
+    """the three parts of the scroll bar must add up to the view height, or the box widget returns more rows than asked"""
+    from . import c20
+
+    r = c20.rule_scrollbar_parts(ctx)
+    r.clause = "C01.15"
+    return r
+
+
 def c03_segment_width(ctx: Ctx):
     from . import c03
 
@@ -273,6 +282,7 @@ def run(ctx: Ctx):
         rule_hline_dedup(ctx),
         loopfresh.run_loopfresh(p, "C01.13", "C01", floor=6),
         c03_segment_width(ctx),
+        _scrollbar_parts(ctx),
     ]
 
 
